@@ -14,7 +14,7 @@ From DD Require Import Base.PyStr Base.Value Path.PathModel Diff.Tree Diff.DiffM
   Delta.DeltaReverseKinds Delta.DeltaReverseSym Delta.DeltaReverseZip
   Delta.DeltaReverseSymD Delta.DeltaReverseDefault Delta.DeltaVerifyPerm
   Diff.DiffPaths Delta.DeltaReverseClash Delta.DeltaReverseClashInv Delta.DeltaVerifyHyp
-  Delta.DeltaReverseFrom Delta.DeltaReverseOracle Delta.DeltaVerifyMore Delta.DeltaVerifyEx2 Delta.DeltaReverseFromEx.
+  Delta.DeltaReverseFrom Delta.DeltaReverseOracle Delta.DeltaVerifyMore Delta.DeltaVerifyEx2 Delta.DeltaReverseFromEx Delta.DeltaReverseKorderEx Delta.DeltaVerifyBase Delta.DeltaVerifySubDiff.
 From DD Require Delta.DeltaExamples.
 
 (* ================================================================== *)
@@ -895,6 +895,23 @@ Proof.
 Qed.
 Print Assumptions C08_back_and_forth_default_instance.
 
+(* the role of [korder]: it is the hypothesis of the SYMMETRY LEMMA (section 9), which is false without it - the
+   model lists the common keys of a dict pair in t1's order, so the reverse tree and the mirrored forward tree order
+   their value changes differently - while the inversion statement itself holds on the witness in the model
+   ({'a':1,'b':2} -> {'b':20,'a':10}; all other guards hold), and the implementation inverts it too (harness, DOC_CASES).
+   [korder t1 t2] says literally "the common keys of paired dicts come in the same order in t1 and t2", i.e. the model's
+   traversal order (t1's) is the code's (t2's: t2_keys & t1_keys): it marks a modelling gap in the ORDER of a pass, observed
+   harmless, not a condition of the property *)
+Theorem C08_diff_symmetric_without_korder_refuted :
+  korderb kx_t1 kx_t2 = false /\
+  guardsb ex_cfg true false kx_t2 kx_t1 = true /\ guardsb ex_cfg true false kx_t1 kx_t2 = true /\
+  ~ keq kx_r (map mirror_entry kx_f) /\
+  map vc_path (d_val kx_d) = [[PKey (K "a"%string)]; [PKey (K "b"%string)]] /\
+  (exists r, ex_sub kx_d kx_t2 = Some (r, 0) /\ veqb r kx_t1 = true) /\
+  (exists r, ex_apply kx_d kx_t1 = (r, 0) /\ veqb r kx_t2 = true).
+Proof. exact kx_witness. Qed.
+Print Assumptions C08_diff_symmetric_without_korder_refuted.
+
 (* ================================================================== *)
 (* 12. exact equality where the model allows it (round 3)              *)
 (* ================================================================== *)
@@ -1004,6 +1021,34 @@ Theorem C08_detects_removed_iterable_item_when_reached :
 Proof. exact apply_detects_iter_removed_when_reached. Qed.
 Print Assumptions C08_detects_removed_iterable_item_when_reached.
 
+(* ... and for the INITIAL base (wave 2).  The base is constrained only where the entry lives: at [op] it holds a dict
+   whose value at the removed key is != (Python) the recorded one.  [leaves_alone q d] (a boolean on the delta): every
+   write  obj[key] = value  (values_changed, type_changes, dictionary_item_added) goes to a path diverging from q - it may
+   sit in the same dict -, every operation that can shift list indexes or rewrites a whole object (iterable items removed /
+   added / moved, opcodes, set items) works on an object whose path diverges from q; [earlier_ok q l1]: a removal visited
+   before the entry does that too, or removes another key of the same dict.  The order oracles only have to return items
+   of their argument *)
+Theorem C08_detects_removed_dict_item_initial_base :
+  forall conv ro ao,
+    (forall l x, In x (ro l) -> In x l) -> (forall l x, In x (ao l) -> In x l) ->
+  forall op kk cur d v l1 e l2 kvs,
+    d_bidir d = true -> ro (d_drem d) = l1 ++ (op ++ [kk], e) :: l2 ->
+    resolve v op = Some (VDict kvs) -> assoc (key_atom kk) kvs = Some cur -> py_eqv e cur = false ->
+    leaves_alone (op ++ [kk]) d = true -> earlier_ok (op ++ [kk]) l1 = true ->
+    0 < snd (apply conv ro ao d v).
+Proof. exact apply_detects_removed_initial. Qed.
+Print Assumptions C08_detects_removed_dict_item_initial_base.
+
+(* the guards hold for a delta with a value change in the SAME dict and a list removal elsewhere
+   ({'d': {'a':1,'b':2,'c':3}, 'l': [1,2,3]} -> {'d': {'a':10,'c':3}, 'l': [1,2]}, base with d.b = 9) *)
+Theorem C08_detects_removed_dict_item_initial_base_instance :
+  d_val ex12_d <> [] /\ d_irem ex12_d <> [] /\
+  leaves_alone ([PKey (K "d"%string)] ++ [PKey (K "b"%string)])%list ex12_d = true /\
+  earlier_ok ([PKey (K "d"%string)] ++ [PKey (K "b"%string)])%list [] = true /\
+  0 < snd (ex_apply ex12_d ex12_base).
+Proof. exact ex12_detect. Qed.
+Print Assumptions C08_detects_removed_dict_item_initial_base_instance.
+
 (* the detection clause for SUBTRACTION: v - d applies the reversed delta, whose recorded old value is the
    forward entry's NEW value and whose location is new_path when there is one ([rpath] / [rtpath]); a base
    that has nothing there or a value != the recorded new value is reported.  Guards as in 3b, on the reversed delta *)
@@ -1022,6 +1067,40 @@ Theorem C08_sub_detects_corruption_type :
     exists r n, sub conv ro ao d v = Some (r, n) /\ 0 < n.
 Proof. exact sub_detects_type. Qed.
 Print Assumptions C08_sub_detects_corruption_type.
+
+(* ... and for the bidirectional delta of a diff the guard is a theorem (wave 2): the reversed delta has, up to the order
+   of its values_changed pass, the payload of the delta of the reverse diff, whose independence is proved.  Data guards
+   only: C01's guards for (t2,t1), korder, no negative int dict key in t1; every valid opcode oracle *)
+Theorem C08_indep_guard_of_reversed_diff_delta :
+  forall hatom udiff ops c conv always,
+    thr_num c <= thr_den c ->
+    (forall p xs ys, forallb is_atom xs = true -> forallb is_atom ys = true -> valid_ops xs ys (ops p xs ys)) ->
+  forall t1 t2,
+    guards c conv true always t2 t1 -> korder t1 t2 -> keys_nonneg t1 = true ->
+    let r := run_diff hatom udiff ops DeltaReverseSym.nos DeltaReverseSym.nos c t1 t2 in
+    indep_verified (reverse (to_delta conv true always ops t1 t2 (fst r) (snd r))) = true.
+Proof. exact reverse_indep_valid. Qed.
+Print Assumptions C08_indep_guard_of_reversed_diff_delta.
+
+Theorem C08_sub_detects_corruption_of_diff :
+  forall hatom udiff ops c conv always,
+    thr_num c <= thr_den c ->
+    (forall p xs ys, forallb is_atom xs = true -> forallb is_atom ys = true -> valid_ops xs ys (ops p xs ys)) ->
+  forall t1 t2,
+    guards c conv true always t2 t1 -> korder t1 t2 -> keys_nonneg t1 = true ->
+    let r := run_diff hatom udiff ops DeltaReverseSym.nos DeltaReverseSym.nos c t1 t2 in
+    let d := to_delta conv true always ops t1 t2 (fst r) (snd r) in
+  forall ro ao v,
+    (forall cc, In cc (d_val d) -> old_mismatch v (rpath cc) (Some (vc_new cc)) = true ->
+       exists r0 n, sub conv ro ao d v = Some (r0, n) /\ 0 < n) /\
+    (forall cc, In cc (d_type d) -> old_mismatch v (rtpath cc) (tc_new cc) = true ->
+       exists r0 n, sub conv ro ao d v = Some (r0, n) /\ 0 < n).
+Proof.
+  intros hatom udiff ops c conv always Hthr Hops t1 t2 G KO N r d ro ao v. split.
+  - exact (sub_detects_value_of_diff hatom udiff ops c conv always Hthr Hops t1 t2 G KO N ro ao v).
+  - exact (sub_detects_type_of_diff hatom udiff ops c conv always Hthr Hops t1 t2 G KO N ro ao v).
+Qed.
+Print Assumptions C08_sub_detects_corruption_of_diff.
 
 Theorem C08_sub_detects_corruption_instance :
   indep_verified (reverse ex_d) = true /\
